@@ -52,6 +52,11 @@ type isoWorld struct {
 	ops     []isoOp
 	bucket  []byte
 	storeAt map[int]int // version -> block index stored in it
+	// straddle mode: a reader parks right after Begin and the scheduler lets
+	// the writer finish a commit before the reader's first read
+	straddle bool
+	waiting  int
+	waitFrom int
 }
 
 // expected returns the key -> value map of version v.
@@ -121,8 +126,16 @@ func (w *isoWorld) readAll(tx database.Tx, how int) (map[string]string, string) 
 		return obs, "get"
 	case 1:
 		c := b.Cursor()
+		var order []string
 		for ok := c.First(); ok; ok = c.Next() {
 			obs[string(c.Key())] = string(c.Value())
+			order = append(order, string(c.Key()))
+			if len(order) > 4*len(w.keys)+16 {
+				break // a cycle in a damaged snapshot
+			}
+		}
+		if !strictlyAscending(order) {
+			w.r.Violate(prop, "cursor-order", "", "forward cursor walk of a snapshot not in strictly ascending byte order: %v", order)
 		}
 		return obs, "cursor-fwd"
 	case 2:
@@ -132,7 +145,11 @@ func (w *isoWorld) readAll(tx database.Tx, how int) (map[string]string, string) 
 			obs[string(c.Key())] = string(c.Value())
 			order = append(order, string(c.Key()))
 		}
-		if !sort.SliceIsSorted(order, func(i, j int) bool { return order[i] > order[j] }) {
+		rev := append([]string(nil), order...)
+		for i, j := 0, len(rev)-1; i < j; i, j = i+1, j-1 {
+			rev[i], rev[j] = rev[j], rev[i]
+		}
+		if !strictlyAscending(rev) {
 			w.r.Violate(prop, "cursor-order", "", "backward cursor walk out of byte order: %v", order)
 		}
 		return obs, "cursor-back"
@@ -143,11 +160,20 @@ func (w *isoWorld) readAll(tx database.Tx, how int) (map[string]string, string) 
 			order = append(order, string(k))
 			return nil
 		})
-		if !sort.StringsAreSorted(order) {
+		if !strictlyAscending(order) {
 			w.r.Violate(prop, "cursor-order", "", "ForEach out of byte order: %v", order)
 		}
 		return obs, "foreach"
 	}
+}
+
+func strictlyAscending(keys []string) bool {
+	for i := 1; i < len(keys); i++ {
+		if keys[i-1] >= keys[i] {
+			return false
+		}
+	}
+	return true
 }
 
 // readBlocks observes which version blocks exist and checks their bytes.
@@ -213,12 +239,22 @@ func runIsolation(r *simkit.Run) {
 		// through several levels while readers still hold the old root
 		nk = simkit.Range(c, 12, 60, "iso-key-count")
 		r.Sig("iso-many")
+		if c.Bool(600, "iso-many-cached") {
+			// keep the versions in the cache treaps (no flush at commit)
+			wl.cacheMax = 100 << 20
+			ffldb.VerifSetCacheParams(db, wl.cacheMax, wl.flushSecs)
+			r.Meta["cache"] = fmt.Sprint(wl.cacheMax)
+		}
 	}
 	for j := 0; j < nk; j++ {
 		w.keys = append(w.keys, fmt.Sprintf("k%02d", j))
 	}
 	w.nVers = simkit.Range(c, 2, 8, "iso-versions")
 	nReaders := simkit.Range(c, 1, 3, "iso-readers")
+	w.straddle = c.Bool(400, "iso-straddle")
+	if w.straddle {
+		r.Sig("iso-straddle")
+	}
 	if err := db.Update(func(tx database.Tx) error {
 		_, err := tx.Metadata().CreateBucket(w.bucket)
 		return err
@@ -361,6 +397,12 @@ func runIsolation(r *simkit.Run) {
 				atBegin := -1
 				body := func(tx database.Tx) error {
 					atBegin = w.commitV // Begin returned: the snapshot is this version
+					if w.straddle {
+						w.waiting++
+						w.waitFrom = w.commitV
+						yield()
+						w.waiting--
+					}
 					seen := -1
 					for i, how := range p.reads {
 						if i > 0 {
@@ -431,6 +473,13 @@ func runIsolation(r *simkit.Run) {
 	steps := 0
 	for len(alive) > 0 {
 		i := c.Intn(len(alive), "iso-sched")
+		if w.straddle && w.waiting > 0 && w.commitV == w.waitFrom {
+			for k, x := range alive {
+				if x.name == "writer" {
+					i = k
+				}
+			}
+		}
 		a := alive[i]
 		a.turn <- struct{}{}
 		d := <-a.done
